@@ -148,6 +148,21 @@ fn buf_text(buf: &[u8]) -> String {
     }
 }
 
+/// the same history on a copy of the buffer that starts `mis` bytes off a word boundary (the Decoder takes any
+/// `&[u8]`: a sub-slice of a file image, an embedded module)
+pub fn run_hist_misaligned(buf: &[u8], h: &[Req], mis: usize) -> Step {
+    let mut container = vec![0xEEu8; buf.len() + mis + 8];
+    // Vec<u8> storage comes from the allocator word-aligned; make sure of the misalignment all the same
+    let base = container.as_ptr() as usize;
+    let start = (4 - base % 4) % 4 + mis;
+    container[start..start + buf.len()].copy_from_slice(buf);
+    let mut st = run_hist(&container[start..start + buf.len()], h);
+    for v in st.viols.iter_mut() {
+        v.what = format!("(buffer placed {} byte(s) off a word boundary) {}", mis, v.what);
+    }
+    st
+}
+
 pub fn run_hist(buf: &[u8], h: &[Req]) -> Step {
     let g = golden();
     let hex = |b: &[u8]| buf_text(b);
@@ -506,6 +521,8 @@ pub fn run(tier: Tier) -> Run {
     let mut bufs = buffers(&[0x00, 0x02, 0xFF], tier.pick(6, 8));
     // strings with complete and incomplete multi-byte sequences
     bufs.extend(buffers(&[0x00, 0xC3, 0xA9], tier.pick(5, 6)).into_iter().filter(|b| b.iter().any(|&x| x >= 0x80)));
+    // a UTF-8 byte order mark (EF BB BF) in front of / inside a string
+    bufs.extend(buffers(&[0x00, 0xEF, 0xBB, 0xBF, 0x61], tier.pick(5, 6)).into_iter().filter(|b| b.windows(3).any(|w| w == [0xEF, 0xBB, 0xBF])));
     // bytes on which word-at-a-time zero-byte tricks misfire: 0x01 next to a NUL, 0x80 / 0x81
     bufs.extend(buffers(&[0x00, 0x01, 0x80, 0x81], tier.pick(5, 6)).into_iter().filter(|b| b.iter().any(|&x| x != 0) && b.len() >= 2));
     bufs.push(b"ok\0".to_vec());
@@ -518,7 +535,16 @@ pub fn run(tier: Tier) -> Run {
         .par_iter()
         .map(|b| {
             let f = |h: &[Req]| run_hist(b, h);
-            (xs::enumerate(&reqs, d_enum, &f), xs::closure(&reqs, d_clos, 100_000, &f))
+            let mut e = xs::enumerate(&reqs, d_enum, &f);
+            // the same buffer 1, 2 and 3 bytes off a word boundary, one step shallower
+            for mis in 1..4 {
+                let fm = |h: &[Req]| run_hist_misaligned(b, h, mis);
+                let em = xs::enumerate(&reqs, d_enum - 1, &fm);
+                e.viols.extend(em.viols);
+                e.transitions += em.transitions;
+                e.histories_replayed += em.histories_replayed;
+            }
+            (e, xs::closure(&reqs, d_clos, 100_000, &f))
         })
         .collect();
     let mut states = 0u64;
